@@ -7,7 +7,23 @@ Runtime contract on  R(**opts).render(Document(x)):
                and only when every candidate delimiter occurs in some inline code of the document
              - Pygments ClassNotFound only with fail_on_unsupported_language=True
              - RecursionError only if the input is nested more than 100 levels
-    time     < 10 s wall clock per (input, configuration)   (ITIMER_REAL in the worker)
+    time     < 10 s per (input, configuration) -- contract 'terminates'.  Measured as CPU time of the worker
+             (ITIMER_PROF; <= wall clock, independent of the load of the machine), ITIMER_REAL backstop
+
+             A time-out is a failure of contract 'terminates' with class  timeout-<phase>-in-<site>  (site: the
+             function of the tree under test in which the time went, see timeout_site); more than MEM_LIMIT of
+             memory is class memory-exhausted-<phase> of the same contract.
+
+Domain (see the 'domain' string of the result): handcrafted inputs, the spec examples, emphasis strings, the two
+alphabets, and three directed families, all deterministic and present for every seed --
+  pumps()           ctx + u * n + tail, <= 4 KB: every Markdown-significant character and ~250 short units, n in
+                    {30, 100, 1000, 4000 // len(u)}, after the context the construct needs (table header line, hard
+                    break, open fence / HTML block, paragraph, container marker, inline opener) and before a failing tail
+  ws_first_lines()  a whitespace-only line of >= 4 columns as the FIRST line of a block: at document start, between
+                    paragraphs, after the blank lines that end an indented code block, after every leaf block, in
+                    quotes / list items / nested containers, with and without a line end
+  composed()        block specimens next to each other and nested in containers (incl. lazy continuation), tables with
+                    short / over-long / empty rows, duplicate siblings, multi-line inline content, astral characters
 
 Configurations (26): see CONFIGS.  Configurations that install the same token set (compared by
 value at run time) share one parse per input: the document is parsed inside the context of the
@@ -90,44 +106,97 @@ class _Timeout(BaseException):
     pass
 
 
+_ARMED = [False]
+_SAMPLES = []             # frames alive at 1/2 and 3/4 of the budget (see timeout_site)
+
+
 def _on_alarm(signum, frame):
+    # two timers are armed: CPU time (fires at 1/2, 3/4 and 1/1 of the budget) and a wall-clock backstop
+    if not _ARMED[0]:
+        return
+    if signum == signal.SIGPROF and len(_SAMPLES) < 2:
+        alive = set()
+        while frame is not None:
+            alive.add(frame)
+            frame = frame.f_back
+        _SAMPLES.append(alive)
+        return
+    _disarm()
     raise _Timeout()
+
+
+def _disarm():
+    _ARMED[0] = False
+    signal.setitimer(signal.ITIMER_PROF, 0)
+    signal.setitimer(signal.ITIMER_REAL, 0)
 
 
 _TIMEOUTS_SEEN = [0]
 _CUR_LEN = [0]            # length of the input being evaluated (set by run_family)
 SHORT = 64                # inputs up to this length are 'tiny'
-ABANDON_AFTER = 12        # time-outs seen by one worker before it stops evaluating inputs
+ABANDON_AFTER = 20        # time-outs seen by one worker before it stops evaluating inputs
+WALL_FACTOR = 4           # wall-clock backstop = WALL_FACTOR x budget
 MEM_LIMIT = 6 << 30       # address-space cap of a worker (a dispatch loop that never advances
                           # appends to its parse buffer for as long as it is allowed to run)
 
 
 def budget():
     """LIMIT_S; once this worker has seen 3 genuine time-outs the tiny inputs (<= SHORT characters: the
-    alphabet enumerations, most handcrafted inputs) get 1 s and the others 3 s, so that a non-terminating
-    change is reported in minutes, not hours.  The first three time-outs of every worker are always
-    judged against the full budget of the property."""
+    alphabet enumerations, most handcrafted inputs) get 1 s and the others 5 s (the slowest terminating
+    evaluation of the pinned tree needs 1.4 s), so that a non-terminating change is reported in minutes,
+    not hours.  The first three time-outs of every worker are always judged against the full budget."""
     if _TIMEOUTS_SEEN[0] < 3:
         return LIMIT_S
-    return 1.0 if _CUR_LEN[0] <= SHORT else 3.0
+    return 1.0 if _CUR_LEN[0] <= SHORT else 5.0
 
 
 def guarded(fn, *a):
-    """-> ('ok', value) | ('exc', exception, traceback) | ('timeout', seconds allowed)"""
+    """-> ('ok', value) | ('exc', exception, traceback) | ('timeout', seconds allowed, traceback)
+    The budget is counted in CPU time of the worker (ITIMER_PROF): the machine is shared, and CPU time never
+    exceeds wall-clock time, so a time-out here is a time-out against the wall-clock budget of the property on
+    any machine that is not faster; an evaluation that does not burn CPU is caught by a wall-clock backstop."""
     b = budget()
-    signal.setitimer(signal.ITIMER_REAL, b)
+    del _SAMPLES[:]
+    _ARMED[0] = True
+    signal.setitimer(signal.ITIMER_REAL, WALL_FACTOR * b)
+    signal.setitimer(signal.ITIMER_PROF, b / 2, b / 4)
     try:
         return ('ok', fn(*a))
-    except _Timeout:
+    except _Timeout as e:
         _TIMEOUTS_SEEN[0] += 1
-        return ('timeout', b)
+        return ('timeout', b, timeout_site(e.__traceback__))
     except BaseException as e:  # noqa
-        if isinstance(e, (KeyboardInterrupt, SystemExit)) and not isinstance(e, _Timeout):
-            signal.setitimer(signal.ITIMER_REAL, 0)
+        if isinstance(e, (KeyboardInterrupt, SystemExit)):
+            _disarm()
             raise
         return ('exc', e, e.__traceback__)
     finally:
-        signal.setitimer(signal.ITIMER_REAL, 0)
+        _disarm()
+        del _SAMPLES[:]
+
+
+def timeout_site(tb):
+    """Where the time went -- a stable slug for the class of a time-out: the innermost function of the tree
+    under test that was on the stack when the budget ran out AND had been on it (the same activation) since
+    half of the budget.  For a regular expression that blows up this is the function that calls it
+    (`ThematicBreak.start`, `find_tokens.<SpanToken>`), for a loop that does not advance it is the function
+    that contains the loop (`tokenize_block`), whatever callee happened to run when the signal arrived."""
+    site, fallback = None, '?'
+    while tb is not None:
+        fr = tb.tb_frame
+        fn = fr.f_code.co_filename
+        if fn.startswith(REPO) and '/mistletoe/' in fn:
+            name = getattr(fr.f_code, 'co_qualname', fr.f_code.co_name)
+            cls = fr.f_locals.get('cls')
+            if isinstance(cls, type) and '.' in name and name.split('.')[0] != cls.__name__:
+                name = cls.__name__ + '.' + name.split('.', 1)[1]      # inherited classmethod
+            if fr.f_code.co_name == 'find_tokens' and isinstance(fr.f_locals.get('token_type'), type):
+                name += '.' + fr.f_locals['token_type'].__name__         # the span token whose pattern is running
+            fallback = name
+            if len(_SAMPLES) == 2 and all(fr in smp for smp in _SAMPLES):
+                site = name
+        tb = tb.tb_next
+    return site or fallback
 
 
 def cap_memory():
@@ -337,7 +406,7 @@ def record(fails, cfg, form, x, g, phase, only_reused=False):
         # the clause 'terminates': no result within the wall-clock budget.  g[1] is the time allowed: LIMIT_S,
         # or the reduced budget of a worker that had already seen 3 time-outs at LIMIT_S (see budget())
         contract = 'terminates'
-        observed, klass = 'no result within %g s' % g[1], 'timeout-' + phase
+        observed, klass = 'no result within %g s of CPU time' % g[1], 'timeout-%s-in-%s' % (phase, g[2])
     elif g[0] == 'type':
         observed, klass = 'render returned %s' % g[1], 'not-a-str'
     else:
@@ -442,7 +511,7 @@ def emphasis_strings():
 # ctx + u * n + tail: a unit u repeated n times, after a context that makes the construct reachable and
 # before a short tail that makes the match fail late.  A regular expression with exponential backtracking
 # blows up at 25-40 repetitions, a quadratic loop at a few thousand; every input is <= MAX_PUMP characters.
-MAX_PUMP = 3500
+MAX_PUMP = 4000
 PUMP_CHARS = list("*_`[]()<>!#-+=.:\\\"'&|~$1{}/?%@;,^") + ['\t', ' ', 'a', 'é', '\xa0', '\U0001f600']
 PUMP_UNITS = [
     # table delimiter rows / rows
@@ -470,7 +539,7 @@ PUMP_LINES = [
     '</a\n', '<!--\n', '-->\n', '<pre>\n', '<?\n', '*a\n', '*\n', '_\n', 'a*\n', '[a\n', '[\n', ']\n', '](\n', '(\n', '`\n', '`a\n',
     '``\n', '$\n', '$a\n', '{{a}}\n', '{{a\n', '{{/a}}\n', '~~\n', '~~a\n', '&\n', '<\n', '    a\n', '\ta\n', '  - a\n', '> a\n', '> - a\n',
     '- > a\n', '>\n\n', '- a\n\n', 'a\n\n', '    a\n\n', '> a\nb\n', '- a\nb\n', 'b=c\n', ' b="\n']
-PUMP_TAILS = ['', 'x', '!', '|', '+', '\n', '+-|']
+PUMP_TAILS = ['', 'x', '!', '|', '\n', '+-|']
 # contexts: what stands before the pump.  One line before it (table header, hard break, open fence, paragraph
 # to continue / underline, open HTML block), a container marker, or the opening of an inline construct.
 CTX_LINE = ['', 'a\n', '|a|b|\n', '|a|b|\n|', 'a\\\n', '```\n', '<div>\n', '> a\n', '- a\n', '- a\n\n  ', '[a]: b\n', '    a\n\n']
@@ -481,41 +550,49 @@ CTX_OPEN = ['[a]: ', '[a]: b "', '[a]: <', '[a](', '[a](b "', '[a](<', '[', '!['
 
 
 def pumps():
-    """The pump family, deterministic.  Small pumps (n = 30, 100) take every unit x every context x every
-    tail; large pumps (n = 1000 and the largest n with len <= MAX_PUMP) take every unit with the line
-    contexts and the tails '', 'x', '+-|', and the container / inline contexts with the tail 'x'."""
+    """The pump family, deterministic:  ctx + u * n + tail.
+    n = 30 : every unit x (line and marker contexts x 5 tails  +  inline-opener contexts x tails 'x', newline)
+    n = 100: every unit x (line and marker contexts x tails 'x', '+-|'  +  inline-opener contexts x tail 'x')
+    large n (the largest n with len(u) * n <= MAX_PUMP; for one-character units also n = 1000):
+             every unit x 6 (context, tail) pairs: bare, failing tail, paragraph continuation, table
+             delimiter row after a header line, in a quote, in a list item
+    and pumps of two different units in a row (u * n + v * n: adjacent quantifiers over two classes)."""
     units = PUMP_CHARS + PUMP_UNITS + PUMP_LINES
     out = []
     for u in units:
-        big = sorted({min(1000, MAX_PUMP // len(u)), MAX_PUMP // len(u)})
-        for n in (30, 100):
+        body = u * 30
+        for c in CTX_LINE + CTX_MARK:
+            for t in ('x', '!', '|', '\n', '+-|'):
+                out.append(c + body + t)
+        for c in CTX_OPEN:
+            out += [c + body + 'x', c + body + '\n']
+        body = u * 100
+        for c in CTX_LINE + CTX_MARK:
+            out += [c + body + 'x', c + body + '+-|']
+        for c in CTX_OPEN:
+            out.append(c + body + 'x')
+        for n in sorted({MAX_PUMP // len(u)} | ({1000} if len(u) == 1 else set())):
             body = u * n
-            for c in CTX_LINE + CTX_MARK + CTX_OPEN:
-                for t in PUMP_TAILS:
-                    out.append(c + body + t)
-        for n in big:
-            body = u * n
-            for c in CTX_LINE:
-                for t in ('', 'x', '+-|'):
-                    out.append(c + body + t)
-            for c in CTX_MARK + CTX_OPEN:
-                out.append(c + body + 'x')
-    # a pump in front of a closer, and two different pumps in a row (nested quantifiers over two classes)
+            for c, t in (('', ''), ('', 'x'), ('a\n', 'x'), ('|a|b|\n|', '+-|'), ('> ', 'x'), ('- ', '\n')):
+                out.append(c + body + t)
     for a, b in (('-', ':'), ('-', ' '), (' ', '-'), ('|', '-'), ('*', '_'), ('[', ']'), ('(', ')'), ('<', '>'), ('`', ' '), (' ', '`'),
                  ('\\', '|'), ('\\', '`'), ('\\', '\\\\'), (' ', '\t'), ('#', ' '), (' ', '#'), ('=', ' '), ('>', ' '), ('&', ';'), ('$', '\\'),
                  ('~', 'a'), ('{', '}'), ('"', '\\"'), ("'", ' '), ('(', '\\)'), ('a', ' '), ('\n', ' '), (' \n', '>'), ('>\n', '-\n')):
-        for n in (30, 100, 1000, MAX_PUMP // (2 * max(len(a), len(b)))):
+        for n in (30, 100):
             for c in ('', '|a|b|\n|', 'a\n', '[a](', '[a]: ', '<a ', '`', '# ', '> ', '- '):
                 for t in ('', 'x', '\n', '+-|'):
                     out.append(c + a * n + b * n + t)
+        n = MAX_PUMP // (2 * max(len(a), len(b)))
+        for c, t in (('', 'x'), ('|a|b|\n|', '+-|'), ('[a](', 'x')):
+            out.append(c + a * n + b * n + t)
     return out
 
 
 # ---- whitespace-only lines that look like indented code, as the FIRST line of a block ------------------
-WS_LINES = ['    ', '\t', '     ', '  \t', '    \t ', '        ', '\t\t', ' \t ']
+WS_LINES = ['    ', '\t', '     ', '  \t', '    \t ', '\t\t']
 WS_PRE = [[], ['a'], ['a', ''], ['    code'], ['    code', ''], ['    code', '', ''], ['\tcode', '', '', ''], ['# h'], ['---'], ['```', 'c', '```'],
           ['<div>', ''], ['<div>'], ['|a|', '|-|'], ['[a]: b'], ['a', '==='], ['- x', ''], ['- x'], ['> x', ''], ['> x'], [''], ['', ''], ['   ']]
-WS_POST = [None, [], ['b'], ['', 'b'], ['    more'], ['', '    more'], ['', '', '\tmore'], ['    '], ['\t', '', 'b'], ['- y'], ['> y'], ['```'], ['===']]
+WS_POST = [None, [], ['b'], ['', 'b'], ['    more'], ['', '', '\tmore'], ['\t', '', 'b'], ['- y'], ['===']]
 # (marker of the first line, prefix of the following lines)
 WS_CONTAINERS = [('', ''), ('> ', '> '), ('>', '>'), ('- ', '  '), ('1. ', '   '), ('> > ', '> > '), ('> - ', '>   '), ('- > ', '  > '),
                  ('- - ', '    '), ('> ', ''), ('- ', '')]
@@ -543,12 +620,22 @@ def composed():
              '[^1]: note\n\n[^1]', '[a]: /u\n[a]: /v\n[A]: /w\n\n[a] [a] [A]', '*multi\nline* **emphasis\nover** `code\nspan` [link\ntext](u\n"t\nt")',
              '<span\na="b">x</span\n>', '\\\nx', 'a\\\nb\\\n', '- [ ] task\n- [x] done', '1. a\n1. a\n1. a', '# h\n# h\n# h', '<!---->', '``` \n```', '#\n##\n###',
              '- \n- \n-', '>\n>\n>', '* a\n+ b\n- c\n1. d\n1) e', '***\n---\n___', '&amp; &#35; &#x22; &nosuch; &#0;', '$a$ $$b$$ \\$c$', '{{a}}\nb\n{{/a}}\n',
-             '[[w]] [[w|t]]', '~~s~~ ~~s\nt~~', 'é́‍\U0001f468‍\U0001f469 ‮ rtl', 'a' * 90 + ' ' + 'b' * 90, ('word ' * 30).strip()]
+             '[[w]] [[w|t]]', '~~s~~ ~~s\nt~~', 'é́‍\U0001f468‍\U0001f469 ‮ rtl', 'a' * 90 + ' ' + 'b' * 90, ('word ' * 30).strip(),
+             # renderer-specific corners: headings with inline content and jumping levels (Toc), characters that are special
+             # in LaTeX / XWiki / Jira output, info strings (Pygments), mixed nested lists, inline content in table cells
+             '# *a* `b` [c](d) <i>e</i> ![f](g)\n### h3\n## h2 ##\n###### h6\n# h1\nh1\n==\nh2\n--',
+             'a # $ % & ~ _ ^ \\ { } < > | " \' b [a%b](c%20d#e_f) ![a_b](c&d "e$f") **{x}** //y// (% z %)',
+             '```python\ndef f(): pass\n```\n```c++\nint x;\n```\n```\n\n```\n~~~ nosuch lang\n~~~',
+             '- a\n  1. b\n     - c\n\n       d\n  2. e\n- f\n\n10) g\n11) h', '| *a* | `b\\|c` | [d](e) |\n|:--|:-:|--:|\n| ![i](s) | <b>x</b> | ~~s~~ $m$ |',
+             '<script>\nx\n\ny</script>\nz', '<!DOCTYPE html>\n<![CDATA[\nx\n]]>\n<?php\nx\n?>\n</div>\n*a*', '<http://a.b/c?d=e&f> <a@b.c> http://x',
+             '[a][b] [b][] [b] ![a][b]\n\n[b]: <u v> (t\n)', 'a<br/>b  \nc\\\nd', '    \n\ta\n    \n    b\n\t\n']
     B = BLOCKS + extra
     out = []
-    for a in B:
-        for b in B:
-            out += [a + '\n' + b, a + '\n\n' + b + '\n']
+    for i, a in enumerate(B):
+        for j, b in enumerate(B):
+            out.append(a + '\n' + b)
+            if (i + j) % 3 == 0:
+                out.append(a + '\n\n' + b + '\n')
     for a in B:
         ls = a.split('\n')
         for first, rest in (('> ', '> '), ('> ', ''), ('>', '>'), ('- ', '  '), ('- ', ''), ('1. ', '   '), ('> - ', '>   '), ('- > ', '  > '),
@@ -583,25 +670,30 @@ def bounds(tier):
     return (4, 6, 7) if tier == 'thorough' else (3, 5, None)
 
 
+FIXED_SLICES = (96, 480)     # work units for the cheap fixed list / the pump list
+
+
 def tasks(tier, seed):
-    """Work units: ('fixed', [(idx, x)]) or ('alpha', sigma name, length, prefix, skip_upto, modulus).
+    """Work units: ('fixed', list number, slice, modulus) or ('alpha', sigma name, length, prefix, modulus).
     Strings over SIGMA12 not longer than the SIGMA28 bound are skipped (SIGMA12 is a subset)."""
     n28, n12, extra = bounds(tier)
-    fx = list(enumerate(fixed_inputs()))
-    out = [('fixed', fx[i::48]) for i in range(48)]
+    out = [('fixed', k, i, m) for k, m in enumerate(FIXED_SLICES) for i in range(m)]
     for name, lo, hi, tail, mod in (('SIGMA28', 0, n28, 2, 1), ('SIGMA12', n28 + 1, n12, 3, 1),
                                     ('SIGMA12', extra or 1, extra or 0, 3, 3)):
         for L in range(lo, hi + 1):
             p = max(0, L - (tail if L > 5 or name == 'SIGMA28' else 2))
             for pre in itertools.product(SIG[name], repeat=p):
                 out.append(('alpha', name, L, ''.join(pre), mod))
-    # spread the expensive regions (tab-led strings are code blocks: Pygments guesses a lexer)
+    # spread the expensive regions (tab-led strings are code blocks: Pygments guesses a lexer; large pumps)
     return [t for i in range(64) for t in out[i::64]]
 
 
 def task_items(task, seed, fixed_set):
     if task[0] == 'fixed':
-        return task[1]
+        _, k, i, m = task
+        lists = fixed_inputs()
+        base = sum(len(lst) for lst in lists[:k])
+        return [(base + j, lists[k][j]) for j in range(i, len(lists[k]), m)]
     _, name, L, pre, mod = task
     sigma = SIG[name]
     rank0 = 0
@@ -640,11 +732,13 @@ def tame_pygments():
 def work(arg):
     global _FAMS, _FIXED
     signal.signal(signal.SIGALRM, _on_alarm)
+    signal.signal(signal.SIGPROF, _on_alarm)
     sys.setrecursionlimit(1000)
     if _FAMS is None:
         _FAMS = families()
-        _FIXED = set(fixed_inputs())
+        _FIXED = set(x for lst in fixed_inputs() for x in lst if len(x) <= 8)
         tame_pygments()
+        cap_memory()
     seed, task = arg
     items = task_items(task, seed, _FIXED)
     stats = {'evaluations': 0, 'contracts': 0, 'nontrivial': 0, 'admitted': 0}
@@ -656,6 +750,7 @@ def work(arg):
         for k in (f['class'], f['renderer'] + ':' + f['class']):
             by_class[k] = by_class.get(k, 0) + 1
     return {'evaluations': stats['evaluations'], 'contract_evaluations': stats['contracts'],
+            'skipped': stats.get('skipped_after_timeouts', 0),
             'distinct_nontrivial': stats['nontrivial'], 'admitted': stats['admitted'],
             'failures': keep_smallest(fails, MAX_KEEP), 'failures_total': len(fails), 'by_class': by_class,
             'failing_inputs': len({f['input'] for f in fails}),
@@ -663,6 +758,7 @@ def work(arg):
 
 
 def run(tier, seed, workers):
+    fixed_inputs()      # built once, inherited by the forked workers
     ts = tasks(tier, seed)
     res = pool_map(work, [(seed, t) for t in ts], workers)
     out = merge(res)
@@ -673,19 +769,29 @@ def run(tier, seed, workers):
     fails = out['failures']
     n28, n12, extra = bounds(tier)
     out.update({
-        'domain': '%d handcrafted ∪ 652 spec examples ∪ ALPHA({*,a},10) ∪ ALPHA({*,_,a,space},7) ∪ ALPHA(SIGMA28 [27 distinct characters],%d) ∪ ALPHA(SIGMA12,%d)%s (%d distinct inputs) as str; '
+        'domain': '%d handcrafted ∪ 652 spec examples ∪ ALPHA({*,a},10) ∪ ALPHA({*,_,a,space},7) ∪ %d documents with a whitespace-only '
+                  'line of >= 4 columns as first line of a block (%d preceding contexts x %d lines x %d continuations x %d containers) ∪ '
+                  '%d documents composed of block specimens (all ordered pairs on adjacent lines, a third of them also separated by a blank line, each nested in 14 container prefixes incl. lazy '
+                  'continuation, non-ASCII substitutions) ∪ %d pump inputs ctx + u*n + tail (%d units u, n in {30, 100, 1000, '
+                  '%d // len(u)}, %d contexts, tails %r; all <= %d characters) ∪ ALPHA(SIGMA28 [27 distinct characters],%d) ∪ '
+                  'ALPHA(SIGMA12,%d)%s (%d distinct inputs) as str; '
                   'those with enumeration rank %% 10 == %d also as list of lines and io.StringIO (11 default-option '
                   'renderers); x %d configurations of the 11 bundled renderers (Html x 4 quote-escaping combos, '
                   'Html(process_html_tokens=False), Markdown x normalize_whitespace x max_line_length {None,1,2,3,10,40}, '
                   'LaTeX, Ast, Toc, GithubWiki, MathJax, Pygments x fail_on_unsupported_language, Jira, XWiki20) in %d '
                   'token-set families; nesting <= 100 levels; limit %d s per (input, configuration)'
-                  % (len(nasty()), n28, n12,
+                  % (len(nasty()), len(ws_first_lines()), len(WS_PRE), len(WS_LINES), len(WS_POST), len(WS_CONTAINERS),
+                     len(composed()), len(fixed_inputs()[1]), len(PUMP_CHARS + PUMP_UNITS + PUMP_LINES), MAX_PUMP,
+                     len(CTX_LINE + CTX_MARK + CTX_OPEN), PUMP_TAILS, max(map(len, fixed_inputs()[1])), n28, n12,
                      ' ∪ {x in SIGMA12^%d : rank(x) %% 3 == %d}' % (extra, seed % 3) if extra else '',
                      out['evaluations'], seed % 10, len(CONFIGS), len(families()), LIMIT_S),
         'rule': 'exhaustive enumeration of the alphabets + fixed lists; a case is non-trivial when its parse (Html token '
                 'set) is not empty and not a single paragraph of plain text; renderer objects are reused within a work unit '
                 'and rebuilt after any exception, a failing case is re-run with nothing shared; pygments.lexers.guess_lexer '
-                '(trusted library, pure) is memoised',
+                '(trusted library, pure) is memoised; a worker that has seen 3 time-outs at the full budget judges the '
+                'following inputs against 1 s (<= %d characters) / 3 s, and stops evaluating after %d time-outs '
+                '(evaluations_skipped_after_timeouts counts input x family)' % (SHORT, ABANDON_AFTER),
+        'evaluations_skipped_after_timeouts': sum(r.get('skipped', 0) for r in res),
         'exhaustive': True, 'admitted_refusals': sum(r['admitted'] for r in res),
         'failures_total': sum(r['failures_total'] for r in res),
         'failures_by_class': dict(sorted(((k, v) for k, v in by_class.items() if ':' not in k), key=lambda kv: -kv[1])),
